@@ -56,7 +56,7 @@ func run(c *vk.Ctx) {
 		return
 	}
 	defer cachedV2.Close()
-	sem.RunCases(c, base, "mem", c.Pick(150, 1200), gen.Options{WideEvery: 4, AlgebraEvery: 5}, 0, 12, func(i int, r *rand.Rand, p *sem.Prepared, _ []*openfgav1.TupleKey) {
+	sem.RunCases(c, base, "mem", c.Pick(150, 1200), gen.Options{WideEvery: 4, AlgebraEvery: 5, HierarchyEvery: 6}, 0, 12, func(i int, r *rand.Rand, p *sem.Prepared, _ []*openfgav1.TupleKey) {
 		oneCase(c, i, r, p, base, engines, cached, cachedV2)
 	})
 }
